@@ -12,7 +12,7 @@
 From PT Require Import Base.Str Model.Types Model.Value Ref.Lexer Ref.Align.
 Open Scope N_scope.
 
-Inductive pval := PV (v : value) | PList (l : list value) | PNode.
+Inductive pval := PV (v : value) | PList (l : list value) (dumped : str) (* a Python list: an SQL array of its elements, or (ValueWrapper(list)) its JSON text *) | PNode.
 
 Definition plain (p : pval) : bool := match p with PNode => false | _ => true end.
 
@@ -68,7 +68,11 @@ Fixpoint walk (cfg : lexcfg) (st : option phstyle) (vals : list pval) (k : N) (P
       ph_ok st k text &&
       match nth_pval (N.to_nat (k - 1)) vals with
       | Some (PV v) => match eat_lit cfg v Is with Some Is' => walk cfg st vals (k + 1) Ps' Is' | None => false end
-      | Some (PList vs) => match eat_list cfg vs Is with Some Is' => walk cfg st vals (k + 1) Ps' Is' | None => false end
+      | Some (PList vs dumped) =>
+          match eat_list cfg vs Is with
+          | Some Is' => walk cfg st vals (k + 1) Ps' Is'
+          | None => match eat_lit cfg (VDumped dumped) Is with Some Is' => walk cfg st vals (k + 1) Ps' Is' | None => false end
+          end
       | Some PNode | None => false
       end
   | p :: Ps' => match Is with i :: Is' => ltok_eqb p i && walk cfg st vals k Ps' Is' | [] => false end
